@@ -529,6 +529,7 @@ type childResult struct {
 	Home          string                  `json:"home"`
 	Gomaxprocs    int                     `json:"gomaxprocs"`
 	Replicas      map[string]childReplica `json:"replicas"`
+	Orders        []moduleOrders          `json:"module_orders"`
 }
 
 // historyShape: digest of the generated history (kinds, notes, block requests): parent and child
@@ -675,6 +676,9 @@ func main() {
 	hs := wallClockHistories(rng.Fork(), seed) // first: their in-process replicas must run before the threshold instant
 	hs = append(hs, targetedHistories(rng.Fork(), seed)...)
 	hs = append(hs, recipeHistories(rng.Fork(), seed, *nrec)...)
+	for rep := 0; rep < *nrec+1; rep++ {
+		hs = append(hs, recipeEndBlockerInteraction(rng.Fork(), seed, rep))
+	}
 	for i := 0; i < *n; i++ {
 		hs = append(hs, genHistory(rng.Fork(), seed, i))
 	}
@@ -690,7 +694,7 @@ func main() {
 			res[h.Name] = childReplica{Shape: historyShape(h), Blocks: runReplica(h, childIndex)}
 		}
 		_, off := time.Now().Zone()
-		out.WriteJSON("replica.json", childResult{Zone: time.Local.String(), OffsetSeconds: off, Home: os.Getenv("HOME"), Gomaxprocs: runtime.GOMAXPROCS(0), Replicas: res})
+		out.WriteJSON("replica.json", childResult{Orders: freshOrders(3), Zone: time.Local.String(), OffsetSeconds: off, Home: os.Getenv("HOME"), Gomaxprocs: runtime.GOMAXPROCS(0), Replicas: res})
 		return
 	}
 	var childWait func() (*childResult, string)
@@ -704,12 +708,14 @@ func main() {
 			earlyDone[h.Name] = append(earlyDone[h.Name], time.Now())
 		}
 	}
+	var childOrders []moduleOrders
 	childInfo := map[string]interface{}{"started": childWait != nil}
 	if childWait != nil {
 		cr, cerr := childWait()
 		if cr == nil {
 			panic("child-process replica failed: " + cerr)
 		}
+		childOrders = cr.Orders
 		childInfo["zone"], childInfo["offset_seconds"], childInfo["home"], childInfo["gomaxprocs"] = cr.Zone, cr.OffsetSeconds, cr.Home, cr.Gomaxprocs
 		for i, h := range run {
 			c, ok := cr.Replicas[h.Name]
@@ -761,6 +767,7 @@ func main() {
 		}
 	}
 	if *only == "" {
+		emitOrders(append(freshOrders(6), childOrders...), seed, emit, dist)
 		direct(rng.Fork(), seed, emit, dist)
 	}
 
